@@ -26,7 +26,8 @@ Inductive act :=
 | AMissing (k : nat)              (* named but not implemented *)
 | AAssign (v : nat) (z : Z)       (* built-in assign of a static value *)
 | ARaise (ty : string) (tag : nat)(* built-in raise, zero delay *)
-| ABadBuiltin (k : nat).          (* built-in whose params callable raises *)
+| ABadBuiltin (k : nat)           (* built-in whose params callable raises *)
+| AEmit (k : nat).                (* built-in emit of event EM<k>: reaches the typed, then the wildcard listener *)
 
 Inductive target := TNone | TState (s : nat) | TUnresolvable.
 
